@@ -99,6 +99,14 @@ def scenario(shape, spelling, p, via_client):
                         codes.append("ok")
                     except a.StatusCodeError as exc:
                         codes.append("StatusCodeError:" + ",".join(exc.received_codes))
+                    except ValueError:
+                        codes.append("ValueError")
+                    try:
+                        # what the server makes of the rest of the password is answered (and logged) by now
+                        await c.command("NOOP", "2xx")
+                        await c.command("NOOP", "2xx")
+                    except (a.StatusCodeError, ConnectionError):
+                        pass
                     c.close()
                 try:
                     w.run(main())
@@ -334,7 +342,46 @@ def enc_work(item):
     return part
 
 
+# passwords with line breaks in them: FTP cannot carry them, and no part of them may end up in a log all the same
+LINEBREAK_PW = ["hunter2\r\nzebra-Xq7-tail", "a\nbcdef-Tail9", "abc\rdefgh-K", "\r\nWholeTail-77", "pw\r\nUSER anonymous",
+                "tail-first\r\n", "Other-Password-1\r\nQm7-after-the-right-one", "p\nSITE %s %(x)s tail"]
+
+
+def lb_work(item):
+    _, shape, pws = item
+    part = report.Partial()
+    import re
+    for p in pws:
+        table = p if shape == "accept" else None
+        ref = re.sub(r"[^\r\n]", "x", p)
+        log, codes = scenario(shape, "PASS", p, True)
+        rlog, rcodes = scenario(shape, "PASS", ref, True)
+        part.evaluations += 1
+        part.traces += 1
+        part.transitions += len(codes)
+        part.states.add(report.fp(["linebreak", shape, p, codes]))
+        part.nontrivial.add(report.fp(["linebreak", shape, p]))
+        part.outcomes[report.fp(codes)] += 1
+        sig = {"kind": None, "shape": shape, "spelling": "Client.login", "linebreak": True}
+        rp = {"shape": shape, "spelling": "PASS", "via_client": True, "password": p}
+        pieces = [x for x in re.split(r"[\r\n]+", p) if len(x.strip()) >= 4 and x != "USER anonymous"]
+        leaked = [x for x in pieces if x.strip() in log or x.strip().lower() in log]
+        if leaked:
+            sig["kind"] = "part-of-password-in-log"
+            line = next((ln for ln in log.split("\n") if leaked[0].strip().lower() in ln.lower()), "")
+            part.violation(sig, {"password_repr": repr(p), "piece": leaked[0], "log_line": line[:200]}, replay=rp)
+        elif codes == rcodes and log != rlog:
+            sig["kind"] = "log-depends-on-password"
+            a_l, b_l = log.split("\n"), rlog.split("\n")
+            diff = next(((x, y) for x, y in zip(a_l, b_l) if x != y), ("<length>", "<length>"))
+            part.violation(sig, {"password_repr": repr(p), "log_line": diff[0][:200], "reference_line": diff[1][:200]},
+                           replay=rp)
+    return part
+
+
 def work(item):
+    if item[0] == "linebreak":
+        return lb_work(item)
     if item[0] == "enc":
         return enc_work(item)
     if item[0] == "long":
@@ -397,6 +444,8 @@ def build_items(tier):
     for shape in ("reject", "before-user", "after-login", "retry"):
         for sp in SPELL:
             items.append((shape, sp, RAW))
+    for shape in ("accept", "reject"):
+        items.append(("linebreak", shape, LINEBREAK_PW))
     for enc in ("latin-1", "ascii", "cp1251"):
         for how in ("context", "login"):
             items.append(("enc", enc, how, ENC_PW))
